@@ -127,12 +127,22 @@ func (h *handler) Handle(ctx context.Context, header *protocol.RequestHeader, re
 			h.logger.Debug("metadata request", "topics", len(metaReq.Topics))
 		}
 		// Extract topic names from request for auto-create and store lookup.
+		// Topics the principal may neither produce to, fetch from nor administer
+		// are answered with an authorization error: they are not auto-created
+		// and their metadata is not disclosed.
 		var topicNames []string
+		var deniedTopics []string
 		for _, t := range metaReq.Topics {
 			if t.Topic != nil {
+				if !h.allowTopicDescribe(principal, *t.Topic) {
+					h.recordAuthzDeniedWithPrincipal(principal, acl.ActionFetch, acl.ResourceTopic, *t.Topic)
+					deniedTopics = append(deniedTopics, *t.Topic)
+					continue
+				}
 				topicNames = append(topicNames, *t.Topic)
 			}
 		}
+		namedOnlyDenied := len(deniedTopics) > 0 && len(topicNames) == 0
 		if h.autoCreateTopics && len(topicNames) > 0 {
 			for _, name := range topicNames {
 				if strings.TrimSpace(name) == "" {
@@ -153,6 +163,15 @@ func (h *handler) Handle(ctx context.Context, header *protocol.RequestHeader, re
 				}
 			}
 			if !useIDs {
+				if namedOnlyDenied {
+					// An empty name list would mean "all topics" to the store.
+					all, err := h.store.Metadata(ctx, nil)
+					if err != nil {
+						return nil, err
+					}
+					all.Topics = nil
+					return all, nil
+				}
 				return h.store.Metadata(ctx, topicNames)
 			}
 			all, err := h.store.Metadata(ctx, nil)
@@ -187,11 +206,24 @@ func (h *handler) Handle(ctx context.Context, header *protocol.RequestHeader, re
 		if err != nil {
 			return nil, fmt.Errorf("load metadata: %w", err)
 		}
+		visible := make([]protocol.MetadataTopic, 0, len(meta.Topics)+len(deniedTopics))
+		for _, topic := range meta.Topics {
+			if topic.Topic != nil && !h.allowTopicDescribe(principal, *topic.Topic) {
+				continue
+			}
+			visible = append(visible, topic)
+		}
+		for _, name := range deniedTopics {
+			visible = append(visible, protocol.MetadataTopic{
+				ErrorCode: protocol.TOPIC_AUTHORIZATION_FAILED,
+				Topic:     kmsg.StringPtr(name),
+			})
+		}
 		resp := kmsg.NewPtrMetadataResponse()
 		resp.Brokers = meta.Brokers
 		resp.ClusterID = meta.ClusterID
 		resp.ControllerID = meta.ControllerID
-		resp.Topics = meta.Topics
+		resp.Topics = visible
 		if h.traceKafka {
 			topicSummaries := make([]string, 0, len(meta.Topics))
 			for _, topic := range meta.Topics {
@@ -699,6 +731,14 @@ func (h *handler) allowTopic(principal string, topic string, action acl.Action) 
 		return true
 	}
 	return h.authorizer.Allows(principal, action, acl.ResourceTopic, topic)
+}
+
+// allowTopicDescribe reports whether the principal may see a topic's metadata:
+// anyone allowed to produce to, fetch from or administer the topic.
+func (h *handler) allowTopicDescribe(principal string, topic string) bool {
+	return h.allowTopic(principal, topic, acl.ActionFetch) ||
+		h.allowTopic(principal, topic, acl.ActionProduce) ||
+		h.allowTopic(principal, topic, acl.ActionAdmin)
 }
 
 func (h *handler) allowTopics(principal string, topics []string, action acl.Action) bool {
